@@ -116,9 +116,10 @@ pub enum StackOp {
 #[derive(Clone, Copy, Debug, PartialEq, Eq)]
 pub struct Step {
     pub out: Out,
-    /// bytes of `rest` consumed by this step (including a skipped byte order mark)
+    /// bytes of `rest` consumed by this step (including a skipped byte order mark: positions are
+    /// byte positions in the input)
     pub consumed: usize,
-    /// bytes of a UTF-8 byte order mark skipped at the very start
+    /// bytes of a UTF-8 byte order mark skipped at the very start (part of `consumed`)
     pub bom: usize,
     pub next_state: u8,
     pub stack: StackOp,
